@@ -36,6 +36,7 @@ import (
 	"github.com/containerd/containerd/v2/core/images/converter"
 	"github.com/containerd/containerd/v2/pkg/labels"
 	"github.com/containerd/containerd/v2/plugins/content/local"
+	"github.com/containerd/errdefs"
 	"github.com/containerd/stargz-snapshotter/estargz"
 	esgzext "github.com/containerd/stargz-snapshotter/estargz/externaltoc"
 	"github.com/containerd/stargz-snapshotter/estargz/zstdchunked"
@@ -557,6 +558,8 @@ type wrapStore struct {
 	parked  bool
 	release chan struct{}
 	Parked  bool // observed: a writer was really parked and later released (not timed out)
+	// observed: every digest committed through this store (Commit returned nil or AlreadyExists)
+	Committed map[string]bool
 	// fault: writers of refs starting with failPrefix fail once more than failAfter bytes were written
 	failPrefix string
 	failAfter  int64
@@ -591,7 +594,27 @@ func (g *wrapStore) Writer(ctx context.Context, opts ...content.WriterOpt) (cont
 	if g.failPrefix != "" && strings.HasPrefix(wo.Ref, g.failPrefix) {
 		return &failWriter{Writer: w, left: g.failAfter}, nil
 	}
-	return w, nil
+	return &commitRecorder{Writer: w, g: g}, nil
+}
+
+// commitRecorder observes which digests the converters commit (also when the store answers AlreadyExists).
+type commitRecorder struct {
+	content.Writer
+	g *wrapStore
+}
+
+func (c *commitRecorder) Commit(ctx context.Context, size int64, expected digest.Digest, opts ...content.Opt) error {
+	err := c.Writer.Commit(ctx, size, expected, opts...)
+	if err == nil || errdefs.IsAlreadyExists(err) {
+		d := c.Writer.Digest()
+		c.g.mu.Lock()
+		if c.g.Committed == nil {
+			c.g.Committed = map[string]bool{}
+		}
+		c.g.Committed[d.String()] = true
+		c.g.mu.Unlock()
+	}
+	return err
 }
 
 type failWriter struct {
@@ -849,7 +872,8 @@ func exec(c Case) Result {
 			srcLabelsBefore[i] = info.Labels
 		}
 	}
-	// the history above must not release the gate
+	// the history above must not release the gate, and its commits are not those of the observed conversions
+	ws.Committed = nil
 	ws.release = make(chan struct{})
 	releaseOnce = new(sync.Once)
 	ws.gate = c.Gate && c.Parallel && finalize != nil && len(c.Ops) > 1
@@ -992,7 +1016,7 @@ func exec(c Case) Result {
 			res.Problems = append(res.Problems, fmt.Sprintf("layer %d: converted, but %d bytes remain ingested under its writer ref", i, res.Layers[i].IngestAfter))
 		}
 	}
-	// clause (frame): a conversion leaves the labels of its SOURCE blob alone (unless a conversion of this case produced that very blob)
+	// clause (frame): a conversion leaves the labels of its SOURCE blob alone (unless a conversion of this case committed that very digest)
 	srcLabelsAfter := make([]map[string]string, n)
 	for i := range c.Ops {
 		if info, err := cs.Info(ctx, srcDesc[i].Digest); err == nil {
@@ -1000,12 +1024,14 @@ func exec(c Case) Result {
 			res.Layers[i].SrcLabelAfter = info.Labels[labels.LabelUncompressed]
 		}
 	}
+	// exactly the digests the observed conversions committed (seen by the store wrapper, also when the conversion failed
+	// afterwards or the store answered AlreadyExists)
 	produced := map[string]bool{}
-	for i := range c.Ops {
-		if outs[i].err == nil && outs[i].pan == nil && outs[i].d != nil {
-			produced[outs[i].d.Digest.String()] = true
-		}
+	ws.mu.Lock()
+	for d := range ws.Committed {
+		produced[d] = true
 	}
+	ws.mu.Unlock()
 	for i := range c.Ops {
 		if produced[srcDesc[i].Digest.String()] {
 			continue
